@@ -62,6 +62,7 @@ func C09(c *vk.Ctx) {
 	walks += c09Validator(c, rng)
 	walks += c09DamagedOpen(c, rng)
 	walks += c09TableBitSweep(c)
+	walks += midSwapFault(c, "movedAside")
 	c.Set("traces_validated_against_impl", int64(walks))
 	c.Set("spec", "CrlStore.tla with Faulty = TRUE (CloseUnder, Corrupt(k)): invariant FailClosed; Revocation.tla verdict composition (any lookup error => handshake rejected)")
 	c.Set("rule", "store level: one case = one edge of the fault-enabled store graph executed on the real backend, all lookups compared; validator level: one case = (backend, fault class, listed/unlisted certificate, strict/lenient) with the fault injected underneath a provisioned validator; violation iff a fault was injected, the specification says 'error', and the real answer is 'not revoked' / the handshake is accepted")
